@@ -849,6 +849,48 @@ func litField(lit *ast.CompositeLit, name string) ast.Expr {
 	return nil
 }
 
+// litFieldDeep is litField through sub-structs: when the literal does not set the field itself, the
+// values of its struct-typed elements (an embedded or by-value part, written as a literal or built by a
+// helper that was looked into on the current path) are searched too. resolved is false when a part could
+// not be traced to a literal, i.e. "not set" is not known.
+func (p *Program) litFieldDeep(fn *Func, lit *ast.CompositeLit, name string, depth int) (val ast.Expr, in *Func, resolved bool) {
+	if v := litField(lit, name); v != nil {
+		return v, fn, true
+	}
+	resolved = true
+	if depth > 3 {
+		return nil, fn, false
+	}
+	for _, el := range lit.Elts {
+		kv, ok := el.(*ast.KeyValueExpr)
+		if !ok {
+			continue
+		}
+		tv, ok := fn.Info().Types[kv.Value]
+		if !ok {
+			continue
+		}
+		nt, ok := tv.Type.(*types.Named)
+		if !ok || !isRepoPkg(nt.Obj().Pkg()) {
+			continue
+		}
+		if _, isStruct := nt.Underlying().(*types.Struct); !isStruct {
+			continue
+		}
+		sub, sfn := p.compositeOfIn(fn, kv.Value)
+		if sub == nil {
+			resolved = false
+			continue
+		}
+		if v, vfn, res := p.litFieldDeep(sfn, sub, name, depth+1); v != nil {
+			return v, vfn, true
+		} else if !res {
+			resolved = false
+		}
+	}
+	return nil, fn, resolved
+}
+
 // litTypeName returns the (package name, type name) of a composite literal's named struct type.
 func litTypeName(info *types.Info, lit *ast.CompositeLit) (string, string) {
 	tv, ok := info.Types[lit]
